@@ -111,7 +111,7 @@ func loadWorld() (*World, error) {
 	// path (their tables matter, e.g. unicode/utf8); for all others the
 	// variables their init would set are recorded so that a read of one of
 	// them is reported instead of silently seeing a zero value
-	pure := map[string]bool{"unicode/utf8": true, "unicode/utf16": true, "math/bits": true, "unicode": true, "sort": true, "slices": true, "cmp": true}
+	pure := map[string]bool{"unicode/utf8": true, "unicode/utf16": true, "math/bits": true, "unicode": true, "sort": true, "slices": true, "cmp": true, "bufio": true, "bytes": true, "strings": true, "strconv": true, "encoding/binary": true, "math": true}
 	w.initStores = map[*ssa.Global]bool{}
 	w.pureInitOf = map[*ssa.Package]*ssa.Function{}
 	for _, p := range prog.AllPackages() {
@@ -163,6 +163,7 @@ func loadWorld() (*World, error) {
 		}
 		w.fnSlots[fn] = n
 	}
+	w.scanSync()
 	return w, nil
 }
 
